@@ -39,6 +39,7 @@ func genC10(r *rand.Rand, kind string) *c10Case {
 	}
 	kind, home := homeKind(r, kind)
 	fan := FanSpec{Kind: kind, HomePath: home, ViaLoader: kind != "sim" && r.Intn(4) == 0, NeverStop: true, HasRpm: true, HasEnable: r.Intn(2) == 0, HasPwm: true, SimMin: mn, SimMax: mx}
+	fan.CmdOneTool = kind == "cmd" && r.Intn(2) == 0
 	if kind == "hwmon" {
 		if part := r.Intn(5); part < 2 {
 			fan.CfgMin, fan.CfgMax = iptr(mn), iptr(mx)
@@ -140,7 +141,7 @@ func checkC10(ctx *Ctx, c *c10Case) {
 	poll := func() int {
 		w.Ctrl.VerifMeasureRpm()
 		totalPolls++
-		rpm, _ := w.Fan.GetRpm()
+		rpm := w.trueRpm() // the device's own behaviour, not fan2go's view of it
 		return rpm
 	}
 	limitPolls := 40 * B
@@ -211,7 +212,7 @@ func checkC10(ctx *Ctx, c *c10Case) {
 			}
 			lastReq, haveReq = req, true
 		}
-		rpmNow, _ := w.Fan.GetRpm()
+		rpmNow := w.trueRpm()
 		if rpmNow > 0 && raises > 0 {
 			// the fan reports rotation again: done
 			ctx.Nontrivial(fmt.Sprintf("%s|w%d|theta%d|prior%v|ratio%d|%s|%s|raises%d|spins", class, n, sc.Plant.Theta, sc.PriorRpm, c.PollsPerCy, sc.Loop.Kind, sc.Map.Kind, raises))
